@@ -455,7 +455,8 @@ def probe_prices(spec):
         return o
     portf = mk_portfolio(spec)
     tg = mk_grid(spec['grid'])
-    op = portf.setup_optim_problem(mk_prices(spec), tg)
+    sk_ = spec.get('opts', {}).get('skip_nodes')
+    op = portf.setup_optim_problem(mk_prices(spec), tg, **({'skip_nodes': list(sk_)} if sk_ else {}))
     rs = np.random.RandomState(seed_of(spec, 'inj'))
     nidx = [i for i, t in enumerate(op.cType) if t == 'N']
     o['injections'] = []
@@ -767,11 +768,28 @@ def probe_slp(spec):
     samples = []
     for s in range(int(so['n'])):
         d = {}
+        if so.get('explicit'):
+            # scenarios written out in the spec (future part of every price key)
+            for k, v in prices.items():
+                w = v.copy()
+                if k in so['explicit'][s]:
+                    w[kf:] = np.asarray(so['explicit'][s][k], float)[kf:]
+                d[k] = w
+            samples.append(d)
+            continue
         for k, v in prices.items():
             w = v.copy()
             if k.startswith('p') and so.get('ordered'):
                 # low / base / high scenarios of one price curve (the present is shared): cost vectors ordered entry by entry
                 w[kf:] = np.abs(w[kf:]) * [0.5, 1.5, 1.0, 2.0][s % 4]
+            elif k.startswith('p') and so.get('near_neutral'):
+                # one scenario in which all prices nearly coincide (trading between the assets is almost neutral: differences of 1/1000),
+                # the others with large differences
+                keys_ = sorted(q for q in prices if q.startswith('p'))
+                if s == 0:
+                    w[kf:] = 5.0 + 0.001 * keys_.index(k) + 0.0 * w[kf:]
+                else:
+                    w[kf:] = np.abs(w[kf:]) * [4.0, 0.25][(s + keys_.index(k)) % 2] + 1.0
             elif k.startswith('p') and so.get('decades'):
                 # scenarios whose prices differ by an order of magnitude (scarcity prices, another currency unit)
                 w[kf:] = w[kf:] * [10.0, 0.125, 3.0][s % 3] + rs.randint(-8, 9, size=T - kf) / 4.0
